@@ -63,11 +63,18 @@ type Op struct {
 	// Raw, when set, is a swap amount in real base units (decimal) and replaces X: walker-synthesised amounts of
 	// configurations with Exp10 != 0 do not fit an int64 and must not be scaled
 	Raw string `json:"raw,omitempty"`
+	// Q, on a withdraw, is 1 + the index of a neighbouring position (one that shares a boundary tick as the other kind
+	// of bound): the amount withdrawn is then liq(P) - liq(Q), which leaves the shared tick with net liquidity ZERO and
+	// gross liquidity 2*liq(Q) - a tick that is still in use although its net is zero
+	Q int `json:"q,omitempty"`
 }
 
 func (o Op) String() string {
 	if o.Raw != "" {
 		return fmt.Sprintf("%s{a=%s p=%d r=%d raw=%s y=%d d=%d}", o.K, o.A, o.P, o.R, o.Raw, o.Y, o.D)
+	}
+	if o.Q > 0 {
+		return fmt.Sprintf("%s{p=%d down-to-the-liquidity-of q=%d}", o.K, o.P, o.Q-1)
 	}
 	return fmt.Sprintf("%s{a=%s p=%d r=%d x=%d y=%d d=%d}", o.K, o.A, o.P, o.R, o.X, o.Y, o.D)
 }
@@ -417,6 +424,12 @@ func (w *World) Apply(ctx sdk.Context, l *Ledger, op Op, fail func(a, s, d strin
 		if op.Y > 1 {
 			amt = p.Liq.MulInt64(op.X).QuoInt64(op.Y)
 		}
+		if op.Q > 0 {
+			if op.Q-1 >= len(l.Pos) {
+				return ctx, "rejected:no-such-position"
+			}
+			amt = p.Liq.Sub(l.Pos[op.Q-1].Liq)
+		}
 		if !amt.IsPositive() {
 			return ctx, "rejected:zero"
 		}
@@ -700,6 +713,9 @@ type Alphabet struct {
 	// state: the amount that lands exactly on the next initialised tick, and one and a half times that
 	// (crosses the tick and continues into the next bucket)
 	CrossSwaps bool
+	// Match adds, for every pair of positions that meet at a tick (one's upper bound is the other's lower bound) with
+	// different liquidity, the partial withdrawal that makes their liquidity EQUAL (net liquidity of the shared tick 0)
+	Match bool
 }
 
 func (w *World) Enabled(al *Alphabet) func(ctx sdk.Context, l *Ledger, depth int) []Op {
@@ -741,6 +757,13 @@ func (w *World) Enabled(al *Alphabet) func(ctx sdk.Context, l *Ledger, depth int
 		for i := range l.Pos {
 			for _, f := range al.Withdraws {
 				ops = append(ops, Op{K: "withdraw", P: i, X: f[0], Y: f[1]})
+			}
+			if al.Match {
+				for j := range l.Pos {
+					if (l.Pos[i].Lower == l.Pos[j].Upper || l.Pos[i].Upper == l.Pos[j].Lower) && l.Pos[i].Liq.GT(l.Pos[j].Liq) {
+						ops = append(ops, Op{K: "withdraw", P: i, Q: j + 1})
+					}
+				}
 			}
 			for _, ad := range al.Adds {
 				ops = append(ops, Op{K: "add", P: i, X: ad[0], Y: ad[1]})
